@@ -266,5 +266,55 @@ theorem priority_queue_order (l : List PTest) :
   · intro a b hsub hp
     exact List.pair_sublist_mergeSort prioLe_trans prioLe_total (by simpa [prioLe] using hp) hsub
 
+open NextestModel.Priority in
+/-- bytes of an ASCII literal -/
+private def bs (s : String) : List UInt8 := s.toList.map (fun c => c.toNat.toUInt8)
+
+open NextestModel.Priority in
+/-- **binary ids are ordered by their components, not as strings**: the package name decides first (`foo::integ` before
+    `foo-bar`, although `-` sorts before `:`), then a bare package (its lib tests) before named binaries, a name without a kind
+    before any kind/name pair, kinds and names bytewise -/
+theorem binary_id_component_order :
+    binLe (bs "foo::integ") (bs "foo-bar") = true ∧ binLe (bs "foo-bar") (bs "foo::integ") = false ∧
+    binLe (bs "foo") (bs "foo::a") = true ∧ binLe (bs "foo::a") (bs "foo") = false ∧
+    binLe (bs "foo::zz") (bs "foo::bench/a") = true ∧ binLe (bs "foo::bench/a") (bs "foo::zz") = false ∧
+    binLe (bs "foo::bench/z") (bs "foo::bin/a") = true ∧ binLe (bs "foo::bin/a") (bs "foo::bin/b") = true ∧
+    binLe (bs "foo::bin/b") (bs "foo-bar") = true := by decide
+
+open NextestModel.Priority in
+/-- **The order in which tests enter the priority sort is (binary id by components, then test name)** — for every set of
+    binaries (distinct ids, as keys of the `BTreeMap`) and test names: along `iter_tests`' order binary-id keys never decrease,
+    and within one binary names never decrease.  Together with `priority_queue_order` (stable sort by descending priority)
+    this is the documented dispatch order. -/
+theorem iter_order_sorted (bins : List (List UInt8 × List (List UInt8))) (prioOf : List UInt8 → List UInt8 → Nat)
+    (hd : (bins.map (·.1)).Nodup) :
+    (iterOrder bins prioOf).Pairwise (fun a b => binKey a.binary ≤ binKey b.binary ∧ (a.binary = b.binary → a.name ≤ b.name)) := by
+  have hbt : ∀ (a b c : List UInt8 × List (List UInt8)), binLe a.1 b.1 = true → binLe b.1 c.1 = true → binLe a.1 c.1 = true := by
+    intro a b c h1 h2; simp only [binLe, decide_eq_true_eq] at *; exact List.le_trans h1 h2
+  have hbtot : ∀ (a b : List UInt8 × List (List UInt8)), (binLe a.1 b.1 || binLe b.1 a.1) = true := by
+    intro a b; simp only [binLe, Bool.or_eq_true, decide_eq_true_eq]; exact List.le_total _ _
+  have hnt : ∀ (a b c : List UInt8), nameLe a b = true → nameLe b c = true → nameLe a c = true := by
+    intro a b c h1 h2; simp only [nameLe, decide_eq_true_eq] at *; exact List.le_trans h1 h2
+  have hntot : ∀ (a b : List UInt8), (nameLe a b || nameLe b a) = true := by
+    intro a b; simp only [nameLe, Bool.or_eq_true, decide_eq_true_eq]; exact List.le_total _ _
+  unfold iterOrder
+  rw [List.pairwise_flatMap]
+  refine ⟨?_, ?_⟩
+  · intro bn _
+    rw [List.pairwise_map]
+    have := List.pairwise_mergeSort hnt hntot bn.2
+    exact this.imp (by intro x y h; exact ⟨List.le_refl _, fun _ => by simpa [nameLe] using h⟩)
+  · have hs := List.pairwise_mergeSort hbt hbtot bins
+    have hperm := List.mergeSort_perm bins (fun a b => binLe a.1 b.1)
+    have hnd : ((bins.mergeSort (fun a b => binLe a.1 b.1)).map (·.1)).Nodup := (hperm.map _).nodup_iff.mpr hd
+    have hne : (bins.mergeSort (fun a b => binLe a.1 b.1)).Pairwise (fun a b => a.1 ≠ b.1) := by
+      rw [List.Nodup, List.pairwise_map] at hnd; exact hnd
+    refine (hs.and hne).imp ?_
+    intro a₁ a₂ h x hx y hy
+    simp only [List.mem_map] at hx hy
+    obtain ⟨n1, _, rfl⟩ := hx
+    obtain ⟨n2, _, rfl⟩ := hy
+    exact ⟨by simpa [binLe] using h.1, fun e => absurd e h.2⟩
+
 end NextestModel.C08
 
